@@ -27,10 +27,13 @@ def run(ctx):
     if ctx.replay:
         ctx.validate("Prop_C14", sig=sig, distinct=distinct)
         return ctx.finish(rule="replay")
-    ctx.tlc_mc("MC_Gecko", "MC_Gecko_big.cfg" if T else "MC_Gecko.cfg", coverage=T, timeout=1200)
+    # thorough: the small configuration with per-action coverage (vacuity report), the big one without (coverage halves TLC's speed)
+    ctx.tlc_mc("MC_Gecko", "MC_Gecko.cfg", coverage=T)
+    if T:
+        ctx.tlc_mc("MC_Gecko", "MC_Gecko_big.cfg", timeout=1200)
     for m in ("NoDec", "Dup", "Total", "Cap", "NoGc"):
         ctx.tlc_mc("MC_Gecko", "MC_Gecko_mut%s.cfg" % m, expect_violation=True)
-    scns = ctx.tlc_gen("MC_Gecko", "Gen_Gecko.cfg", num=2000 if T else 200, depth=40)
+    scns = ctx.tlc_gen("MC_Gecko", "Gen_Gecko.cfg", num=1500 if T else 120, depth=40)
     ctx.write_scenarios("gecko", scns)
     ctx.go_test("extras", "./obfs/", "TestVerif_C14$", ["harness/extras/obfs/c14_test.go"])
     ctx.validate("Prop_C14", sig=sig, distinct=distinct)
